@@ -4,7 +4,9 @@
 //! sender, 1..80: > 64 crosses a queue block), MAYV_CTX=th|co|mix (thread / coroutine endpoints, by seed),
 //! MAYV_RECV=recv|try|timed|iter|mix, MAYV_CLONE=1 (senders make short-lived clones while sending),
 //! MAYV_KEEP=1 (main keeps one more Sender and drops it at a seeded moment), MAYV_RXDROP=k (every receiver
-//! is dropped after k values, values left behind), MAYV_AGAIN=1 (after Disconnected the receiver calls
+//! is dropped after k values, values left behind), MAYV_DROPSPIN=n (a sender passes up to n schedule
+//! points between its last send and its drop), MAYV_HOLD=1 (a sender stays alive until everything
+//! sent so far was received), MAYV_AGAIN=1 (after Disconnected the receiver calls
 //! again), MAYV_SCHED=narrow|wide (schedule points: the sync layer only = atomic queue operations, or
 //! every hooked access incl. the queue internals).
 //!
@@ -17,7 +19,10 @@
 //!  * a receive call started after the last Sender drop returned answers a value or Disconnected,
 //!    never Empty / Timeout; a hang (receiver never woken) is reported by the harness as HANG;
 //!  * send fails only once every Receiver drop has begun, gives the value back, and a send started
-//!    after the last Receiver drop returned fails.
+//!    after the last Receiver drop returned fails; what was sent before the last Receiver's drop began
+//!    is gone (received or dropped) when that drop returns;
+//!  * MAYV_HOLD: with every sender idle but alive, everything sent is received (the receiver is
+//!    woken by the send itself, not by a later send or by the disconnect).
 //!
 //! Trace records for the acceptors (kind, obj, val): chan.new; send.call(h, seq) send.ret(h, ok);
 //! clone.call(h, newh) clone.ret(h, newh); dropc.call(h) dropc.ret(h); try.call try.ret(k, v);
@@ -70,6 +75,7 @@ static RX_LOWER: AtomicI64 = AtomicI64::new(1);
 static NOK: AtomicU64 = AtomicU64::new(0); // sends that returned Ok
 static NRECV: AtomicU64 = AtomicU64::new(0);
 static NDISC: AtomicU64 = AtomicU64::new(0);
+static SNAP: std::sync::Mutex<Vec<(usize, usize)>> = std::sync::Mutex::new(Vec::new());
 
 struct P {
     h: u32,
@@ -240,6 +246,34 @@ fn sender(h: u64, tx: Tx, msgs: u64, clones: bool, seed: u64) {
         }
         n += 1;
     }
+    // MAYV_HOLD: keep this Sender alive until everything sent so far has been received, so that no
+    // later send / drop can stand in for the wake-up of the last send (C06: woken by the send itself)
+    if envn("MAYV_HOLD", 0) != 0 {
+        let mut rounds = 0;
+        while NRECV.load(SeqCst) < NOK.load(SeqCst) && RX_UPPER.load(SeqCst) > 0 {
+            rounds += 1;
+            if rounds > 200 {
+                c.fail(format!(
+                    "values are queued ({} sent Ok, {} received) and the receiver is not woken although no sender is sending",
+                    NOK.load(SeqCst),
+                    NRECV.load(SeqCst)
+                ));
+                break;
+            }
+            if may::coroutine::is_coroutine() {
+                may::coroutine::sleep(Duration::from_millis(1));
+            } else {
+                c.sleep_ns(1_000_000);
+            }
+        }
+    }
+    // the drop of this Sender lands at a seeded moment of what the receivers are doing
+    let spin = envn("MAYV_DROPSPIN", 0);
+    if spin > 0 {
+        for _ in 0..xs(&mut r) % spin {
+            c.point();
+        }
+    }
     drop_tx(&c, h, tx);
 }
 
@@ -381,11 +415,29 @@ fn receiver(rx: Rx, plan: RxPlan, seed: u64) {
             }
         }
     }
-    RX_LOWER.fetch_sub(1, SeqCst);
+    // what was sent Ok before every Receiver's drop had begun must be gone once all these drops returned
+    if RX_LOWER.fetch_sub(1, SeqCst) == 1 {
+        let mut before = vec![];
+        for h in 0..MAXH {
+            for i in 0..MAXI {
+                if OKSENT[h][i].load(SeqCst) == 1 {
+                    before.push((h, i));
+                }
+            }
+        }
+        *SNAP.lock().unwrap() = before;
+    }
     c.log("dropp.call", 0, 0, None);
     drop(rx);
     c.log("dropp.ret", 0, 0, None);
-    RX_UPPER.fetch_sub(1, SeqCst);
+    if RX_UPPER.fetch_sub(1, SeqCst) == 1 {
+        for (h, i) in SNAP.lock().unwrap().iter().copied() {
+            if RECEIVED[h][i].load(SeqCst) + DROPS[h][i].load(SeqCst) == 0 {
+                c.fail(format!("({h},{i}) was sent before the last Receiver was dropped and is still alive after that drop returned"));
+                break;
+            }
+        }
+    }
 }
 
 fn main() {
@@ -404,7 +456,7 @@ fn main() {
     let kind = envs("MAYV_KIND", "mpsc");
     let nsend = if kind == "spsc" { 1 } else { envn("MAYV_SENDERS", 2).clamp(1, 3) };
     let nrecv = if kind == "mpmc" { envn("MAYV_RECEIVERS", 2).clamp(1, 3) } else { 1 };
-    let msgs = envn("MAYV_MSGS", 3).clamp(1, 80);
+    let msgs = envn("MAYV_MSGS", 3).clamp(0, 80);
     let ctx_sel = envs("MAYV_CTX", "mix");
     let mode = envs("MAYV_RECV", "recv");
     let clones = envn("MAYV_CLONE", 0) != 0;
